@@ -556,3 +556,33 @@ func (p *Program) singleCloseSite(key string) bool {
 	p.buildFieldFacts()
 	return p.ff.closeSites[key] == 1
 }
+
+// globalInitNonNil: g is only written by init functions, every store assigns a fresh allocation or the
+// result of a call that never returns nil.
+func (p *Program) globalInitNonNil(g *ssa.Global) bool {
+	if !p.onlyWrittenInInit(g) {
+		return false
+	}
+	p.mu.Lock()
+	uses := p.globalUses[g]
+	p.mu.Unlock()
+	n := 0
+	for _, u := range uses {
+		st, ok := u.(*ssa.Store)
+		if !ok || st.Addr != ssa.Value(g) {
+			continue
+		}
+		n++
+		switch v := st.Val.(type) {
+		case *ssa.Alloc:
+		case *ssa.Call:
+			c := v.Common().StaticCallee()
+			if c == nil || !p.returnsNonNil(c, 0, 0) {
+				return false
+			}
+		default:
+			return false
+		}
+	}
+	return n > 0
+}
